@@ -28,7 +28,15 @@ fn space(tier: Tier) -> &'static Space {
 /// hand-written texts covering productions the families do not print
 fn extra_texts() -> Vec<(String, String)> {
     let mut v: Vec<(String, String)> = crate::props::c15::PROGRAMS.iter().map(|(n, s)| (format!("c15:{n}"), s.to_string())).collect();
-    let more: [(&str, &str); 22] = [
+    let more: [(&str, &str); 30] = [
+        ("match_and_types", "type alias Pt = (float, float)\ntype Dir = Up | Down\ntype rec List = Nil | Cons(float, List)\nfn sum(l: List) -> float {\n  match l {\n    Nil => 0.0,\n    Cons(h, t) => h + sum(t)\n  }\n}\nfn dsp(x) {\n  let d = Up\n  let v = match d { Up => 1.0, Down => 2.0 }\n  let w = match x { 0 => 1.0, 1 => { let q = 2.0\n q }, _ => 3.0 }\n  let m = match (x, 1.0) { (a, b) => a + b }\n  v + w + m + sum(Cons(1.0, Nil))\n}\n"),
+        ("match_arms_on_lines", "fn dsp(x) {\n  match x {\n    0 => 1.0\n    1 => 2.0\n    _ => 3.0\n  }\n}\n"),
+        ("if_without_parentheses", "fn dsp(x) {\n  if x > 0.0 {\n    1.0\n  } else {\n    2.0\n  }\n}\n"),
+        ("record_pattern_and_update", "fn dsp(x) {\n  let r = {a = x, b = 2.0}\n  let {a = p, b = q} = r\n  let r2 = {r <- a = p + q}\n  r2.a + r.b\n}\n"),
+        ("one_element_tuple_and_pattern", "fn dsp(x) {\n  let t = (x,)\n  let (y,) = t\n  y + t.0\n}\n"),
+        ("lambda_without_parameters", "fn dsp(x) {\n  let c = 1.0\n  let f = | | { c + x }\n  let g = | | c\n  f() + g()\n}\n"),
+        ("typed_everything", "fn f(a:float, t:(float, float), r:{p:float, q:float}, g:(float)->float) -> float {\n  g(a) + t.0 + r.p\n}\nfn dsp(x:float) -> float {\n  let y:float = x\n  let (u, v):(float, float) = (y, 1.0)\n  f(u, (v, 1.0), {p = 1.0, q = 2.0}, |z:float| -> float { z })\n}\n"),
+        ("modules_and_use", "mod m {\n  pub fn f(x) {\n    x + 1.0\n  }\n  pub mod n {\n    pub fn g(x) {\n      x * 2.0\n    }\n  }\n}\nuse m::n::g\nuse m::{f}\nfn dsp(x) {\n  f(x) + g(x) + m::n::g(x)\n}\n"),
         // a block comment that is the first thing on its line, in front of: a continuation operand, an opening brace, a
         // comma (comma-first layout), the closing brace of a function body (all preserved on the unchanged tree), and
         // - after a list comma - a tuple element, a call argument, a record field (dropped: listed finding)
@@ -74,7 +82,25 @@ fn corpus_ok() -> &'static Vec<usize> {
 /// at the start of a line in so many positions on the unchanged tree (before the first token, a top-level item, a closing
 /// brace, inside and after nested blocks - three of them kept as witness texts with their findings) that the variant
 /// cannot tell a new loss from the listed ones
-const NVAR: u64 = xform::LAYOUTS.len() as u64;
+const NVAR: u64 = xform::LAYOUTS.len() as u64 + 3;
+/// programs whose single-gap deviations are enumerated (a block comment at every token boundary; inside parentheses and
+/// square brackets also a line break and a line comment), and the fixed number of index slots per program
+const GAPMAX: u64 = 900;
+fn gap_space(tier: Tier) -> &'static Space {
+    static Q: OnceLock<Space> = OnceLock::new();
+    static T: OnceLock<Space> = OnceLock::new();
+    match tier {
+        Tier::Quick => Q.get_or_init(|| Space::new(&[("FS", 1), ("FC", 1), ("FA", 1), ("FB", 1)])),
+        Tier::Thorough => T.get_or_init(|| Space::new(&[("FS", 1), ("FC", 2), ("FA", 2), ("FB", 2), ("FT", 1)])),
+    }
+}
+fn gap_case(src: &str, g: u64) -> Option<(String, String)> {
+    let gaps = xform::gap_variants(src);
+    let (at, ins, name) = *gaps.get(g as usize)?;
+    let mut t = src.to_string();
+    t.insert_str(at, ins);
+    Some((t, format!("gap {g} at byte {at}: {name}")))
+}
 
 fn strip_spans(s: &str) -> String {
     // simple_print appends ":start..end" to located nodes
@@ -125,7 +151,7 @@ fn input(tier: Tier, idx: u64) -> Option<(String, String, Vec<String>)> {
         let (_, g) = space(tier).get(base);
         let g = g?;
         let src = g.source();
-        let (text, what) = if var == 0 { (src, "as printed".to_string()) } else { (layout_variant(&src, (var - 1) as usize), format!("layout {}", xform::LAYOUTS[(var - 1) as usize])) };
+        let (text, what) = if var == 0 { (src, "as printed".to_string()) } else { (layout_variant(&src, (var - 1) as usize), format!("layout {}", layout_name((var - 1) as usize))) };
         return Some((text, format!("{} {:?} ({what})", g.family, g.ops), vec![g.family.to_string(), format!("variant_{var}")]));
     }
     let k = idx - nfam;
@@ -137,8 +163,23 @@ fn input(tier: Tier, idx: u64) -> Option<(String, String, Vec<String>)> {
     }
     let k = k as usize - extras.len() * NVAR as usize;
     let files = corpus_ok();
-    let f = &corpus()[*files.get(k)?];
-    Some((f.text.clone(), format!("corpus {}", f.path.display()), vec!["corpus".into(), format!("file:{}", f.path.file_name().unwrap().to_string_lossy())]))
+    if k < files.len() {
+        let f = &corpus()[files[k]];
+        return Some((f.text.clone(), format!("corpus {}", f.path.display()), vec!["corpus".into(), format!("file:{}", f.path.file_name().unwrap().to_string_lossy())]));
+    }
+    // single-gap deviations of the one-operation programs and of the hand-written texts
+    let k = (k - files.len()) as u64;
+    let (b, g) = (k / GAPMAX, k % GAPMAX);
+    let ng = gap_space(tier).n();
+    if b < ng {
+        let (_, p) = gap_space(tier).get(b);
+        let p = p?;
+        let (text, what) = gap_case(&p.source(), g)?;
+        return Some((text, format!("{} {:?} ({what})", p.family, p.ops), vec![p.family.to_string(), "gap".into()]));
+    }
+    let e = extras.get((b - ng) as usize)?;
+    let (text, what) = gap_case(&e.1, g)?;
+    Some((text, format!("{} ({what})", e.0), vec![e.0.clone(), "gap".into()]))
 }
 fn layout_variant(src: &str, which: usize) -> String {
     match which {
@@ -148,7 +189,18 @@ fn layout_variant(src: &str, which: usize) -> String {
         3 => src.lines().map(|l| format!("{l} // c")).collect::<Vec<_>>().join("\n") + "\n",
         4 => src.replace(')', " /* c */ )"),
         5 => src.replace('\n', "\r\n"),
-        _ => xform::comment_at_line_start(src),
+        6 => xform::comment_at_line_start(src),
+        // a block comment in front of the first token of EVERY line (first line, closing braces, nested blocks included)
+        7 => src.lines().map(|l| if l.trim().is_empty() { l.to_string() } else { let t = l.trim_start(); format!("{}/* c */ {t}", &l[..l.len() - t.len()]) }).collect::<Vec<_>>().join("\n") + "\n",
+        // a block comment after the last token of every line
+        _ => src.lines().map(|l| if l.trim().is_empty() { l.to_string() } else { format!("{l} /* e */") }).collect::<Vec<_>>().join("\n") + "\n",
+    }
+}
+fn layout_name(which: usize) -> &'static str {
+    match which {
+        w if w < xform::LAYOUTS.len() => xform::LAYOUTS[w],
+        7 => "block_comment_at_every_line_start",
+        _ => "block_comment_at_every_line_end",
     }
 }
 
@@ -157,7 +209,7 @@ impl Prop for C14 {
         "C14"
     }
     fn n_cases(&self, tier: Tier) -> u64 {
-        space(tier).n() * NVAR + (extra_texts().len() as u64) * NVAR + corpus_ok().len() as u64
+        space(tier).n() * NVAR + (extra_texts().len() as u64) * NVAR + corpus_ok().len() as u64 + (gap_space(tier).n() + extra_texts().len() as u64) * GAPMAX
     }
     fn chunk(&self, _t: Tier) -> u64 {
         200
